@@ -256,6 +256,54 @@ def run(ctx):
                 extra = list((cl - ce).elements())[:3]
                 s2.violate({"src": pr["src"][:600]}, {"missing": missing}, {"unexpected": extra}, "symbol file does not list each label definition outside loop iterations once with its bank and offset")
         s2.sample({"format": "bb:oooo name"})
-        return [s, s2, s3]
+        # ---- the SFC writer on an image that is already open (position not 0), and two programs into one image
+        s4 = core.Stream("S8-sfc-writer-api", "SFCWriter objects created on an open image file whose position is not 0 (an existing image that was read from, or written by an earlier writer): a program whose first block goes to offset 0 (`*=0x008000`), then others; a second program into the same open file through a new SFCWriter; oracle: the image is the previous image with every block at its own offset -- the same bytes the IPS patch of the same blocks gives when applied to it; non-trivial = distinct (initial position, block layouts)")
+        import io
+        from a816.program import Program
+        from a816.writers import SFCWriter
+        for i in range(12 if tier == "quick" else 120):
+            base = bytearray(rng.randrange(256) for _ in range(rng.randrange(0, 0x120)))
+            f = io.BytesIO(bytes(base))
+            how = i % 3
+            if how == 0:
+                f.read(min(len(base), rng.randrange(1, 0x40)))       # a tool that looked at the header first
+            elif how == 1:
+                f.seek(0, 2)                                          # opened for appending / positioned at the end
+            else:
+                f.seek(rng.randrange(1, 0x200))
+            n1, n2 = rng.randrange(1, 9), rng.randrange(1, 9)
+            d1 = [rng.randrange(256) for _ in range(n1)]
+            d2 = [rng.randrange(256) for _ in range(n2)]
+            off2 = rng.randrange(0x10, 0x300)
+            src1 = "*=0x008000\n.db " + ", ".join(map(str, d1)) + f"\n*=0x{0x8000 + off2:06x}\n.db " + ", ".join(map(str, d2)) + "\n"
+            src2 = "*=0x008000\n.db " + ", ".join(map(str, d2)) + "\n"
+            image = bytearray(base)
+
+            def put(img, off, data):
+                if len(img) < off:
+                    img.extend(b"\x00" * (off - len(img)))
+                img[off:off + len(data)] = bytes(data)
+            try:
+                with impl.quiet(), core.watchdog(20):
+                    e1 = Program().assemble_string_with_emitter(src1, "a.s", SFCWriter(f))
+                    put(image, 0, d1)
+                    put(image, off2, d2)
+                    e2 = None
+                    if i % 2 == 0:
+                        e2 = Program().assemble_string_with_emitter(src2, "b.s", SFCWriter(f))
+                        put(image, 0, d2)
+                got = f.getvalue() if e1 is None and e2 is None else ("error", e1, e2)
+            except core.Timeout:
+                continue
+            except Exception as e:  # noqa: BLE001
+                got = ("raised", type(e).__name__, str(e)[:100])
+            s4.cases += 1
+            s4.nontrivial.add((how, len(base), n1, off2, i % 2))
+            s4.count(("after-read", "at-end", "after-seek")[how])
+            if got != bytes(image):
+                s4.violate({"first": src1, "second": src2 if i % 2 == 0 else None, "initial image": bytes(base).hex(), "position of the file before the writer was created": ("after a read", "end of file", "after a seek")[how]},
+                           bytes(image)[:48].hex(), got[:48].hex() if isinstance(got, bytes) else str(got), "the SFC image written through a writer created on an already positioned file is not the image with every block at its own offset")
+        s4.sample({"first": "*=0x008000 .db … / *=0x008010 .db …", "file": "BytesIO positioned at its end"})
+        return [s, s2, s3, s4]
     finally:
         run_.close()
